@@ -38,11 +38,18 @@ def run(ctx):
         pc.model(ctx, 'MCParFor.tla', 'MC_c12_quick_ranges.cfg', WHAT, 'all ranges of 5-bit types')
         pc.model(ctx, 'MCParFor.tla', 'MC_c12_quick_opts.cfg', WHAT, 'edge ranges of 6-bit types x options')
     # E1 schedules ------------------------------------------------------------------------------
-    # (the worker state machines have several actions: coverage-based vacuity check in thorough)
-    pc.model(ctx, 'StripeWorkers.tla', 'MC_workers_thorough.cfg' if thorough else 'MC_workers_quick.cfg', WHAT,
-             'stripe claims, every interleaving', coverage=thorough, min_states=1000)
-    pc.model(ctx, 'DynWorkers.tla', 'MC_dyn_thorough.cfg' if thorough else 'MC_dyn_quick.cfg', WHAT,
-             'dynamic index claims, every interleaving', coverage=thorough, min_states=1000)
+    # (the worker state machines have several actions: coverage-based vacuity check in thorough, on the small cfgs)
+    pc.model(ctx, 'StripeWorkers.tla', 'MC_workers_quick.cfg', WHAT, 'stripe claims, every interleaving (1..3 workers)',
+             coverage=thorough, min_states=1000)
+    pc.model(ctx, 'DynWorkers.tla', 'MC_dyn_quick.cfg', WHAT, 'dynamic index claims, every interleaving',
+             coverage=thorough, min_states=1000)
+    if thorough:
+        pc.model(ctx, 'StripeWorkers.tla', 'MC_workers_thorough.cfg', WHAT,
+                 'stripe claims, every interleaving (1..3 workers, larger)', min_states=1000)
+        pc.model(ctx, 'StripeWorkers.tla', 'MC_workers_4.cfg', WHAT, 'stripe claims, every interleaving (4 workers)',
+                 min_states=1000)
+        pc.model(ctx, 'DynWorkers.tla', 'MC_dyn_thorough.cfg', WHAT, 'dynamic index claims (up to 5 + caller)',
+                 min_states=1000)
     # negative controls -------------------------------------------------------------------------
     pc.negative_control(ctx, 'MCParFor.tla', 'MC_neg_cursor.cfg',
                         'fetch_add stripe cursor wraps when the range ends near the maximum of a 64-bit type')
